@@ -199,6 +199,7 @@ func c19Property(env *storeEnv) func(t *rapid.T) {
 		}
 		model := map[string][]byte{} // id -> stored document bytes
 		damaged := map[string]string{}
+		entryPath := map[string]string{} // id -> file its first store created (found by diffing the tree, not by knowing the naming scheme)
 		var hist []string
 		logf := func(f string, a ...any) { hist = append(hist, fmt.Sprintf(f, a...)) }
 		history := func() string { return "\n    " + strings.Join(hist, "\n    ") }
@@ -220,7 +221,7 @@ func c19Property(env *storeEnv) func(t *rapid.T) {
 		}
 		checkConfinement := func(after string) {
 			snap := snapshotTree(T)
-			for rel, kind := range snap {
+			for rel := range snap {
 				if rel == "decoy.txt" {
 					continue
 				}
@@ -228,10 +229,7 @@ func c19Property(env *storeEnv) func(t *rapid.T) {
 					continue // the base directory and its parents
 				}
 				if strings.HasPrefix(rel, baseRel+"/") {
-					if strings.Contains(strings.TrimPrefix(rel, baseRel+"/"), "/") || (kind == "d" && damaged[filepath.Base(rel)] != "directory") {
-						t.Fatalf("after %s: %q was created below the store directory (entries must be direct children)%s", after, rel, history())
-					}
-					continue
+					continue // inside the configured directory (how entries are laid out there is the store's business)
 				}
 				t.Fatalf("after %s: path %q was created outside the configured directory%s", after, rel, history())
 			}
@@ -260,7 +258,7 @@ func c19Property(env *storeEnv) func(t *rapid.T) {
 			checkChild("retrieve (verification after "+after+")", r, len(ids))
 			for i, id := range ids {
 				x := r.Res[i]
-				if d := damaged[entryName(id)]; d != "" {
+				if d := damaged[id]; d != "" {
 					// corrupted entry: an error return or some document, never an empty one
 					if x.Err == "" {
 						raw, _ := base64.StdEncoding.DecodeString(x.Doc)
@@ -310,6 +308,10 @@ func c19Property(env *storeEnv) func(t *rapid.T) {
 					return
 				}
 				existed := model[id] != nil
+				var treeBefore map[string]string
+				if !existed {
+					treeBefore = snapshotTree(T)
+				}
 				hx.ClassIf(len(id) > 255, "store:long_id")
 				hx.ClassIf(len(id) > 255 && existed && noClobber, "store:long_id_noclobber_conflict")
 				r := env.run([]childReq{{Op: "store", Dir: base, Doc: base64.StdEncoding.EncodeToString(raw), NoClobber: noClobber}})
@@ -323,18 +325,18 @@ func c19Property(env *storeEnv) func(t *rapid.T) {
 					}
 				case baseBroken != "":
 					// unwritable directory, existing entry: replacing it in place may or may not be possible
-					if serr == "" && !(noClobber && damaged[entryName(id)] == "") {
+					if serr == "" && !(noClobber && damaged[id] == "") {
 						model[id] = raw
-						delete(damaged, entryName(id))
+						delete(damaged, id)
 					} else if serr == "" {
 						t.Fatalf("store with no-clobber replaced the existing entry %q%s", id, history())
 					}
-				case existed && noClobber && damaged[entryName(id)] == "":
+				case existed && noClobber && damaged[id] == "":
 					clobberConflict = true
 					if serr == "" {
 						t.Fatalf("store with no-clobber replaced the existing entry %q%s", id, history())
 					}
-				case damaged[entryName(id)] == "directory":
+				case damaged[id] == "directory":
 					if serr == "" {
 						t.Fatalf("store succeeded although the entry path is a directory%s", history())
 					}
@@ -347,9 +349,19 @@ func c19Property(env *storeEnv) func(t *rapid.T) {
 					}
 					if existed {
 						overwrote = true
+					} else {
+						var created []string
+						for rel, kind := range snapshotTree(T) {
+							if _, was := treeBefore[rel]; !was && kind == "f" && strings.HasPrefix(rel, baseRel+"/") {
+								created = append(created, rel)
+							}
+						}
+						if len(created) == 1 {
+							entryPath[id] = filepath.Join(T, created[0])
+						}
 					}
 					model[id] = raw
-					delete(damaged, entryName(id))
+					delete(damaged, id)
 					// a quarter of the successful stores are followed at once by a no-clobber store of another
 					// document under the same identifier: it must be refused and leave the entry as it is
 					if rapid.IntRange(0, 3).Draw(t, "again") == 0 {
@@ -414,12 +426,12 @@ func c19Property(env *storeEnv) func(t *rapid.T) {
 					if x.Err == "" {
 						t.Fatalf("retrieving the unknown / unreachable entry %q returned no error (document empty=%v)%s", id, x.Doc == "", history())
 					}
-				case damaged[entryName(id)] != "":
+				case damaged[id] != "":
 					faultedRetrieve = true
 					if x.Err == "" {
 						raw, _ := base64.StdEncoding.DecodeString(x.Doc)
 						if x.NilDoc || len(raw) == 0 {
-							t.Fatalf("retrieving the %s entry %q returned an empty document without error%s", damaged[entryName(id)], id, history())
+							t.Fatalf("retrieving the %s entry %q returned an empty document without error%s", damaged[id], id, history())
 						}
 					}
 				default:
@@ -455,7 +467,7 @@ func c19Property(env *storeEnv) func(t *rapid.T) {
 				r := env.run([]childReq{{Op: "session", Dir: base, Steps: steps}})
 				logf("session on one backend: store(%q); remove directory; store(%q); retrieve both -> exit=%d %+v", idA, idB, r.Exit, r.Res)
 				checkChild("session", r, 5)
-				if damaged[entryName(idA)] == "" && r.Res[0].Err != "" {
+				if damaged[idA] == "" && r.Res[0].Err != "" {
 					t.Fatalf("session: first store failed: %s%s", r.Res[0].Err, history())
 				}
 				if r.Res[2].Err != "" {
@@ -519,35 +531,38 @@ func c19Property(env *storeEnv) func(t *rapid.T) {
 					t.Skip("nothing stored")
 				}
 				id := rapid.SampledFrom(ids).Draw(t, "victim")
-				p := filepath.Join(base, entryName(id))
-				if st, err := os.Lstat(p); err != nil || !st.Mode().IsRegular() || damaged[entryName(id)] == "unreadable" {
+				p := entryPath[id]
+				if p == "" {
+					p = filepath.Join(base, entryName(id))
+				}
+				if st, err := os.Lstat(p); err != nil || !st.Mode().IsRegular() || damaged[id] == "unreadable" {
 					t.Skip("entry is not an ordinary file any more")
 				}
 				switch kind {
 				case "delete":
 					_ = os.Remove(p)
 					delete(model, id)
-					delete(damaged, entryName(id))
+					delete(damaged, id)
 				case "truncate_zero":
 					_ = os.Truncate(p, 0)
-					damaged[entryName(id)] = "empty"
+					damaged[id] = "empty"
 				case "junk":
 					_ = os.WriteFile(p, []byte("\xff\xff\xff\xffnot a protobuf\x00\x01"), 0o644)
-					damaged[entryName(id)] = "corrupted"
+					damaged[id] = "corrupted"
 				case "directory":
 					_ = os.Remove(p)
 					_ = os.Mkdir(p, 0o755)
 					if env.asUser {
 						_ = os.Chown(p, nobodyID, nobodyID)
 					}
-					damaged[entryName(id)] = "directory"
+					damaged[id] = "directory"
 				case "unreadable":
 					if !env.asUser {
 						t.Skip("needs an unprivileged child")
 					}
 					_ = os.Chmod(p, 0o000)
 					_ = os.Chown(p, 0, 0)
-					damaged[entryName(id)] = "unreadable"
+					damaged[id] = "unreadable"
 				}
 				logf("fault: %s on entry of %q", kind, trunc(id, 40))
 			},
